@@ -1024,4 +1024,167 @@ Section Inorder.
     destruct (l_empty (prepared s1)); cbn [fst]; [split; [exact O1|exact Eb]|].
     split; [|exact Eb]. destruct O1 as (H1 & H2 & H3). split; [exact H1|]. split; [exact H2|exact H3].
   Qed.
+
+  (* ---------- histories ---------- *)
+  Definition foldF := (fun (acc : st * list sample) (o : op) =>
+                 let r := step (fst acc) o in
+                 (fst r, match snd r with Some x => snd acc ++ [x] | None => snd acc end)).
+
+  Lemma skipn_cons_nth : forall {A} (l : list A) k p t d, skipn k l = p :: t ->
+    (k < List.length l)%nat /\ p = nth k l d /\ t = skipn (Datatypes.S k) l.
+  Proof.
+    intros A l. induction l as [|a l IH]; intros k p t d H.
+    - destruct k; discriminate H.
+    - destruct k as [|k].
+      + cbn in H. injection H as <- <-. cbn. split; [lia|split; reflexivity].
+      + cbn [skipn] in H. destruct (IH k p t d H) as (H1 & H2 & H3). cbn [List.length nth]. split; [lia|split; assumption].
+  Qed.
+
+  Lemma sig_ops : forall ops k s outs, sig k s -> pushed_of ops = skipn k (concat fs) ->
+    (forall o, In o ops -> o <> OFlush) ->
+    sig n (fst (fold_left foldF ops (s, outs))).
+  Proof.
+    induction ops as [|o ops IH]; intros k s outs Hs Hp Hnf; cbn [fold_left].
+    - cbn [fst]. cbn in Hp. destruct Hs as (lo & a & j & A & Hrest). pose proof (ag_le _ _ _ A) as Hle.
+      assert (k = n).
+      { destruct (Nat.eq_dec k n) as [|N]; [assumption|exfalso].
+        assert (Hlen : List.length (skipn k (concat fs)) = (n - k)%nat) by apply skipn_length.
+        rewrite <- Hp in Hlen. cbn in Hlen. lia. }
+      subst k. exists lo, a, j. split; assumption.
+    - destruct o as [p| |]; unfold foldF at 2; cbn [SampleBuilder.step fst snd].
+      + change (pushed_of (OPush p :: ops)) with (p :: pushed_of ops) in Hp. symmetry in Hp.
+        destruct (skipn_cons_nth _ _ _ _ dummy Hp) as (Hk & Ep & Et).
+        apply (IH (Datatypes.S k)).
+        * subst p. apply sig_push; assumption.
+        * exact Et.
+        * intros o Ho. apply Hnf. right. exact Ho.
+      + apply (IH k); [apply sig_pop; exact Hs|exact Hp|intros o Ho; apply Hnf; right; exact Ho].
+      + exfalso. apply (Hnf OFlush); [left; reflexivity|reflexivity].
+  Qed.
+
+  Lemma sig_st0 : sig 0 st0.
+  Proof.
+    exists 0%nat, 0%nat, 0%nat. split.
+    - constructor; cbn; try lia; try (intros; contradiction); try (intros; reflexivity).
+    - split; [split; split; cbn; lia|]. split; [lia|]. split; [reflexivity|]. split; [lia|].
+      split; [reflexivity|]. right. split; reflexivity.
+  Qed.
+
+  (* the final Pops hand out what is pending, one sample each *)
+  Lemma pop_pending : forall s outs, omega s -> qinv s outs -> few s ->
+    (List.length outs < List.length (built s))%nat -> snd (pop s) <> None.
+  Proof.
+    intros s outs Ho Q Hf Hlen. unfold SampleBuilder.pop.
+    destruct (omega_pop s Ho) as [_ Eb]. unfold SampleBuilder.pop in Eb.
+    pose proof (nohead_build false s (proj1 Ho) (proj2 (proj2 Ho))) as Eb1.
+    set (s1 := fst (buildSample false s)) in *.
+    assert (Q1 : qinv s1 outs) by (eapply qinv_eff; [apply eff_buildSample|exact Q]).
+    assert (Hf1 : few s1) by (unfold few in *; rewrite Eb1; exact Hf).
+    destruct (Q1 Hf1) as (pend & E & Hh0 & Ht & Hl).
+    pose proof (pend_short s1 outs pend Hf1 E) as Hp.
+    assert (Hpl : (0 < List.length pend)%nat).
+    { apply (f_equal (@List.length _)) in E. rewrite rev_length, app_length, Eb1 in E. lia. }
+    destruct pend as [|x pend]; [cbn in Hpl; lia|].
+    assert (Ene : l_empty (prepared s1) = false).
+    { unfold l_empty. apply N.eqb_neq. rewrite Ht. cbn [List.length] in *. rewrite w16_spec. lia. }
+    rewrite Ene. cbn [snd].
+    specialize (Hl 0%nat x eq_refl). rewrite w16_small in Hl by lia.
+    replace (l_head (prepared s1) + N.of_nat 0) with (l_head (prepared s1)) in Hl by lia.
+    rewrite Hl. discriminate.
+  Qed.
+
+  Lemma pops_drain : forall t s outs, omega s -> qinv s outs -> few s ->
+    omega (fst (fold_left foldF (repeat OPop t) (s, outs))) /\
+    built (fst (fold_left foldF (repeat OPop t) (s, outs))) = built s /\
+    qinv (fst (fold_left foldF (repeat OPop t) (s, outs))) (snd (fold_left foldF (repeat OPop t) (s, outs))) /\
+    (Nat.min (List.length outs + t) (List.length (built s)) <= List.length (snd (fold_left foldF (repeat OPop t) (s, outs))))%nat.
+  Proof.
+    induction t as [|t IH]; intros s outs Ho Q Hf; cbn [repeat fold_left].
+    - cbn [fst snd]. split; [exact Ho|]. split; [reflexivity|]. split; [exact Q|lia].
+    - change (foldF (s, outs) OPop) with (fst (pop s), match snd (pop s) with Some x => outs ++ [x] | None => outs end).
+      destruct (omega_pop s Ho) as [Ho' Eb'].
+      pose proof (qinv_pop is_head is_tail unmarshal c s outs Q) as Q'.
+      assert (Hf' : few (fst (pop s))) by (unfold few in *; rewrite Eb'; exact Hf).
+      set (outs' := match snd (pop s) with Some x => outs ++ [x] | None => outs end) in *.
+      destruct (IH (fst (pop s)) outs' Ho' Q' Hf') as (G1 & G2 & G3 & G4).
+      split; [exact G1|]. split; [rewrite G2; exact Eb'|]. split; [exact G3|].
+      rewrite Eb' in G4.
+      assert (Hstep : (Nat.min (List.length outs + 1) (List.length (built s)) <= List.length outs')%nat).
+      { destruct (Nat.lt_ge_cases (List.length outs) (List.length (built s))) as [Hlt|Hge].
+        - pose proof (pop_pending s outs Ho Q Hf Hlt) as Hne. subst outs'.
+          destruct (snd (pop s)); [rewrite app_length; cbn; lia|contradiction].
+        - subst outs'. destruct (snd (pop s)); [rewrite app_length; cbn; lia|lia]. }
+      lia.
+  Qed.
+
+  Lemma m_le_n : (m <= n)%nat.
+  Proof.
+    assert (G : forall j, (j <= m)%nat -> (j <= blen j)%nat).
+    { induction j as [|j IH]; intro Hj; [lia|]. rewrite blen_S' by lia. pose proof (frame_nonempty' j ltac:(lia)). specialize (IH ltac:(lia)). lia. }
+    specialize (G m (le_n _)). rewrite (blen_all fs) in G. exact G.
+  Qed.
+
+  Theorem complete_inorder_run : forall ops, pushed_of ops = concat fs ->
+    (forall o, In o ops -> o <> OFlush) ->
+    all_frames_emitted fs (snd (run (ops ++ OFlush :: repeat OPop m))).
+  Proof.
+    intros ops Hp Hnf.
+    assert (Erun : forall ops0, run ops0 = fold_left foldF ops0 (st0, [])) by reflexivity.
+    rewrite Erun, fold_left_app.
+    remember (fold_left foldF ops (st0, [])) as X eqn:E1. symmetry in E1.
+    change (fold_left foldF (OFlush :: repeat OPop m) X) with (fold_left foldF (repeat OPop m) (foldF X OFlush)).
+    destruct X as [s1 outs1].
+    assert (S1 : sig n s1).
+    { pose proof (sig_ops ops 0%nat st0 [] sig_st0 Hp Hnf) as G. rewrite E1 in G. exact G. }
+    assert (Q1 : qinv s1 outs1).
+    { pose proof (fifo is_head is_tail unmarshal c ops st0 [] qinv_st0) as G.
+      change (qinv (fst (fold_left foldF ops (st0, []))) (snd (fold_left foldF ops (st0, [])))) in G.
+      rewrite E1 in G. exact G. }
+    change (foldF (s1, outs1) OFlush) with (flush s1, outs1).
+    pose proof (omega_flush s1 S1) as O2.
+    assert (Q2 : qinv (flush s1) outs1) by (apply qinv_purgeBuffers; exact Q1).
+    assert (Hlen : List.length (built (flush s1)) = m).
+    { destruct O2 as (_ & Hb & _). apply (f_equal (@List.length _)) in Hb. rewrite map_length, rev_length in Hb. exact Hb. }
+    assert (Hf2 : few (flush s1)).
+    { unfold few. rewrite Hlen. pose proof m_le_n. pose proof n_short. lia. }
+    destruct (pops_drain m (flush s1) outs1 O2 Q2 Hf2) as (O3 & Eb3 & Q3 & Hcount).
+    set (r := fold_left foldF (repeat OPop m) (flush s1, outs1)) in *.
+    assert (Hf3 : few (fst r)) by (unfold few in *; rewrite Eb3; exact Hf2).
+    destruct (Q3 Hf3) as (pend & E & _).
+    assert (Hpend : pend = []).
+    { apply (f_equal (@List.length _)) in E. rewrite rev_length, app_length, Eb3, Hlen in E.
+      rewrite Hlen in Hcount. destruct pend; [reflexivity|cbn in E; lia]. }
+    subst pend. rewrite app_nil_r in E.
+    destruct O3 as (_ & Hb3 & _). rewrite E in Hb3.
+    intros f Hf. rewrite <- Hb3 in Hf. apply in_map_iff in Hf. destruct Hf as (x & Hx & Hin).
+    exists x. split; [exact Hin|exact Hx].
+  Qed.
 End Inorder.
+
+(* delivery without displacement is delivery in stream order *)
+Lemma delivers0_eq : forall fs ops, delivers 0 fs ops -> pushed_of ops = concat fs.
+Proof.
+  intros fs ops (Hperm & Hd & _).
+  pose proof (Permutation_length Hperm) as Hlen.
+  apply list_eq_nth_error. intro j.
+  destruct (nth_error (pushed_of ops) j) as [p|] eqn:E.
+  - assert (Hin : In p (concat fs)) by (apply (Permutation_in _ Hperm); eapply nth_error_In; exact E).
+    apply In_nth_error in Hin. destruct Hin as (i & Hi). destruct (Hd i j p Hi E) as [H1 H2].
+    assert (i = j) by lia. subst i. symmetry. exact Hi.
+  - symmetry. apply nth_error_None. apply nth_error_None in E. lia.
+Qed.
+
+Theorem complete_inorder : forall is_head is_tail unmarshal c fs ops,
+  stream_ok is_head is_tail fs -> delivers 0 fs ops ->
+  c_maxLateTs c = 0 ->
+  (forall f, In f fs -> N.of_nat (List.length f) <= c_maxLate c) ->
+  (forall p, In p (concat fs) -> unmarshal (p_payload p) <> None) ->
+  all_frames_emitted fs
+    (snd (run is_head is_tail unmarshal c (ops ++ OFlush :: repeat OPop (List.length fs)))).
+Proof.
+  intros is_head is_tail unmarshal c fs ops (Hfr & _ & (h & Hh & Hseq) & Hshort & _) Hd Hts Hfit Hunm.
+  apply (complete_inorder_run is_head is_tail unmarshal c fs h Hh Hfr Hseq Hshort Hunm Hts).
+  - intros j Hj. apply Hfit. apply nth_In. exact Hj.
+  - apply delivers0_eq. exact Hd.
+  - apply Hd.
+Qed.
